@@ -259,7 +259,7 @@ func scenarioGroup(w *pool.W, scs []*Scenario, tier string, runtime bool) error 
 		tm := sc.testMethod()
 		var res *model.Result
 		if sc.Forced && sc.ForcedReject != "" {
-			res = &model.Result{Verdict: model.Reject, Reasons: []string{"reject: " + sc.ForcedReject}, Codes: []string{"signature:" + sc.ForcedReject}, Pkgs: map[string]bool{}, WrapPkgs: map[string]bool{}, Plan: &rt.PlanSet{}}
+			res = &model.Result{Verdict: model.Reject, Reasons: []string{"reject: " + sc.ForcedReject}, Codes: []string{"signature:" + sc.ForcedReject}, Pkgs: map[string]bool{}, WrapPkgs: map[string]bool{}, WrapOptional: map[string]bool{}, Plan: &rt.PlanSet{}}
 		} else {
 			res = model.Judge(sc.Conv, tm.M)
 		}
@@ -284,6 +284,9 @@ func scenarioGroup(w *pool.W, scs []*Scenario, tier string, runtime bool) error 
 			res.WrapFmt = res.WrapFmt || r2.WrapFmt
 			for p := range r2.WrapPkgs {
 				res.WrapPkgs[p] = true
+			}
+			for p := range r2.WrapOptional {
+				res.WrapOptional[p] = true
 			}
 		}
 		if sc.Unspec != "" && verdict == model.OK {
@@ -515,8 +518,22 @@ func reformat(sc *Scenario, format string) *Scenario {
 	conv.Methods = nil
 	n.Conv = &conv
 	n.Methods = nil
-	newID := sc.ID + map[string]string{"function": "F", "variables": "V", "variables-moved": "M"}[format]
+	newID := sc.ID + map[string]string{"function": "F", "variables": "V", "variables-moved": "M", "reordered": "O"}[format]
 	ren := func(name string) string { return name + "X" + newID } // carries the case id for compile-error attribution
+	if format == "reordered" {
+		// struct format; every method but the tested one gets a name that sorts before it (methods are processed in
+		// name order), so helper creation and reuse happen in the opposite order
+		if len(sc.Methods) < 2 {
+			return nil
+		}
+		newID = sc.ID
+		ren = func(name string) string {
+			if name == sc.Test {
+				return name
+			}
+			return "Aa" + name
+		}
+	}
 	byOld := map[*model.Method]*model.Method{}
 	for _, m := range sc.Conv.Methods {
 		mm := *m
@@ -548,6 +565,8 @@ func reformat(sc *Scenario, format string) *Scenario {
 		n.ID = sc.ID + "V"
 		n.Variables = true
 		conv.OutPkg = "conv"
+	case "reordered":
+		n.ID = sc.ID
 	case "variables-moved":
 		// the variables stay in package conv, the generated init functions live in another package
 		n.ID = sc.ID + "M"
